@@ -161,3 +161,10 @@ Example C02_ex_nested :
        TFlushB; TSnap; TFlushE; TRet 1 0; TDone 1; TFlushE;
      TFlushB; TSnap; TFlushE; TRet 0 0; TDone 0; TFlushE].
 Proof. vm_compute. reflexivity. Qed.
+(* a handler that is a plain function, calls stop() and returns a generator object: the dispatcher registers
+   the generator as a task and still breaks the handler loop; the priority-0 handler never runs and the
+   action after the return is dead code *)
+Example C02_ex_stop_gen :
+  trace (runZ [(0, [Build_handler 0 0%Z []; Build_handler 1 3%Z [AStop; AGen; AFire 0 0%Z]])] 100 [AFire 0 0%Z; AFlush]) =
+    [TFire e0; TFlushB; TSnap; TDisp e0; TInv 0 1 1; TStop 0 1; TGen 0 1; TRet 0 1; TDone 0; TFlushE].
+Proof. vm_compute. reflexivity. Qed.
